@@ -350,8 +350,15 @@ def handleTransform (req : Json) : R Json := do
   let tol ← match optFld req "tol" with | none => pure (0 : Rat) | some v => asRat v
   let obs ← asObs (← fld req "obs")
   let r := obs.result
+  -- the contract under which the theorems speak, checked on the matrix the real kernel was handed
+  let layout ← strFD req "layout" ""
+  let wantLayout ← strFD req "wantLayout" ""
+  let axisnum ← natFD req "axisnum" (match ax with | .obs => 0 | .samp => 1)
+  let contract := layout == wantLayout && axisnum == (match ax with | .obs => 0 | .samp => 1) && cs.wfb &&
+    cs.nMajor == (t.ids ax).length && cs.nMinor == (t.ids ax.other).length &&
+    decide (cs.toDense = majorGrid t ax)
   let generic : List (String × Bool) :=
-    [("frame", cFrame t r), ("log-ids", cLogIds t ax obs.log), ("log-args", cLogArgs t ax obs.log),
+    [("layout-contract", contract), ("frame", cFrame t r), ("log-ids", cLogIds t ax obs.log), ("log-args", cLogArgs t ax obs.log),
      ("writes-back", cWriteBack t ax obs.log r), ("zero-stays-zero", cZeros t ax r),
      ("no-stored-zeros", obs.storedZeros == 0), ("inplace", cInplace t inplace obs)]
   let oracleFn : R (List Rat → List Rat) := do
